@@ -816,6 +816,73 @@ func actxImportCompiler(c *Ctx) []Obligation {
 		}
 		return false
 	}
+	// fillsInitTable: the tables that the statement list fills, unconditionally (top-level
+	// statements), under the given key with a value built from the init function's name:
+	// `v := f(<init name>)` … `T[key] = v`, directly or in a helper of the package that receives the
+	// key and the table as arguments (two levels).
+	var fillsInitTable func(list []ast.Stmt, key types.Object, depth int) []types.Object
+	fillsInitTable = func(list []ast.Stmt, key types.Object, depth int) []types.Object {
+		var tables []types.Object
+		initVars := map[types.Object]bool{}
+		for _, s := range list {
+			switch x := s.(type) {
+			case *ast.AssignStmt:
+				if len(x.Lhs) != 1 || len(x.Rhs) != 1 {
+					continue
+				}
+				if lid, ok := x.Lhs[0].(*ast.Ident); ok {
+					if mentionsInit(x.Rhs[0]) {
+						if o := info.Defs[lid]; o != nil {
+							initVars[o] = true
+						}
+					}
+				}
+				if ix, ok := x.Lhs[0].(*ast.IndexExpr); ok {
+					cid, ok1 := ast.Unparen(ix.X).(*ast.Ident)
+					k, ok2 := ast.Unparen(ix.Index).(*ast.Ident)
+					val, ok3 := ast.Unparen(x.Rhs[0]).(*ast.Ident)
+					if ok1 && ok2 && ok3 && use(k) == key && initVars[use(val)] {
+						tables = append(tables, use(cid))
+					}
+				}
+			case *ast.ExprStmt:
+				ce, ok := x.X.(*ast.CallExpr)
+				if !ok || depth >= 2 {
+					continue
+				}
+				gd := actxDeclOfFunc(p, CalleeOf(info, ce))
+				if gd == nil {
+					continue
+				}
+				// parameters of the helper, positionally
+				var params []types.Object
+				for _, fl := range gd.Type.Params.List {
+					for _, nm := range fl.Names {
+						params = append(params, info.Defs[nm])
+					}
+				}
+				keyParam := types.Object(nil)
+				for i, a := range ce.Args {
+					if id, ok := ast.Unparen(a).(*ast.Ident); ok && i < len(params) && use(id) == key {
+						keyParam = params[i]
+					}
+				}
+				if keyParam == nil {
+					continue
+				}
+				for _, t := range fillsInitTable(gd.Body.List, keyParam, depth+1) {
+					for i, a := range ce.Args {
+						if i < len(params) && params[i] == t {
+							if id, ok := ast.Unparen(a).(*ast.Ident); ok {
+								tables = append(tables, use(id))
+							}
+						}
+					}
+				}
+			}
+		}
+		return tables
+	}
 	perModule := map[types.Object]bool{}
 	ast.Inspect(cp.Body, func(n ast.Node) bool {
 		rs, ok := n.(*ast.RangeStmt)
@@ -831,28 +898,10 @@ func actxImportCompiler(c *Ctx) []Obligation {
 			return true
 		}
 		kobj := info.Defs[kid]
-		// top-level statements of the loop body only: unconditional
-		initVars := map[types.Object]bool{}
-		for _, s := range rs.Body.List {
-			as, ok := s.(*ast.AssignStmt)
-			if !ok || len(as.Lhs) != 1 || len(as.Rhs) != 1 {
-				continue
-			}
-			if lid, ok := as.Lhs[0].(*ast.Ident); ok {
-				if mentionsInit(as.Rhs[0]) {
-					if o := info.Defs[lid]; o != nil {
-						initVars[o] = true
-					}
-				}
-			}
-			if ix, ok := as.Lhs[0].(*ast.IndexExpr); ok {
-				cid, ok1 := ast.Unparen(ix.X).(*ast.Ident)
-				key, ok2 := ast.Unparen(ix.Index).(*ast.Ident)
-				val, ok3 := ast.Unparen(as.Rhs[0]).(*ast.Ident)
-				if ok1 && ok2 && ok3 && use(key) == kobj && initVars[use(val)] {
-					perModule[use(cid)] = true
-				}
-			}
+		// top-level statements of the loop body only: unconditional. The body may be a helper that
+		// is handed the key and the table (`self.registerModule(name, module, …, initFns, …)`).
+		for _, t := range fillsInitTable(rs.Body.List, kobj, 0) {
+			perModule[t] = true
 		}
 		return true
 	})
